@@ -324,6 +324,9 @@ def main(ck):
                "Definition M := Eval vm_compute in all_codes cases.\nPrint M.\n") % ";\n".join(cases)
         files.append(("c01cases%d" % (i // shard), txt))
     res = ck.coq_eval_many(files) if ok else []
+    for idx in range(len(res)):  # a shard that failed (machine under load, build dir disturbed) is evaluated once more, alone
+        if res[idx][0] != 0 or not re.search(r"M\s*=", res[idx][1]):
+            res[idx] = ck.coq_eval_many([files[idx]])[0]
     codes = {}
     for idx, (rc2, o) in enumerate(res):
         m = re.search(r"M\s*=\s*(.*?)\s*:\s*list", o, re.S)
